@@ -48,27 +48,29 @@ func fuzzTarget(f *testing.F, name string) {
 }
 
 func FuzzTokenChallenge(f *testing.F) { fuzzTarget(f, "UnmarshalTokenChallenge") }
-func FuzzToken1(f *testing.F) { fuzzTarget(f, "type1.UnmarshalPrivateToken+Verify") }
-func FuzzToken2(f *testing.F) { fuzzTarget(f, "type2.UnmarshalToken") }
-func FuzzToken3(f *testing.F) { fuzzTarget(f, "type3.UnmarshalToken") }
-func FuzzToken5(f *testing.F) { fuzzTarget(f, "type5.UnmarshalBatchedPrivateToken+Verify") }
-func FuzzRequest1(f *testing.F) { fuzzTarget(f, "type1.TokenRequest.Unmarshal+Evaluate") }
-func FuzzRequest2(f *testing.F) { fuzzTarget(f, "type2.TokenRequest.Unmarshal+Evaluate") }
-func FuzzRequest5(f *testing.F) { fuzzTarget(f, "type5.TokenRequest.Unmarshal+Evaluate") }
-func FuzzRequest3(f *testing.F) { fuzzTarget(f, "type3.TokenRequest.Unmarshal") }
-func FuzzInner(f *testing.F) { fuzzTarget(f, "type3.InnerTokenRequest.Unmarshal") }
-func FuzzEncapKey(f *testing.F) { fuzzTarget(f, "type3.UnmarshalEncapKey") }
-func FuzzBatchRequest(f *testing.F) { fuzzTarget(f, "batched.TokenRequest.Unmarshal+EvaluateBatch") }
-func FuzzBatchResponse(f *testing.F) { fuzzTarget(f, "batched.UnmarshalBatchedTokenResponses+Finalize") }
-func FuzzTokenKey(f *testing.F) { fuzzTarget(f, "util.UnmarshalTokenKey") }
-func FuzzFinalize1(f *testing.F) { fuzzTarget(f, "type1.FinalizeToken") }
-func FuzzFinalize2(f *testing.F) { fuzzTarget(f, "type2.FinalizeToken") }
-func FuzzFinalize3(f *testing.F) { fuzzTarget(f, "type3.FinalizeToken") }
-func FuzzFinalize5(f *testing.F) { fuzzTarget(f, "type5.FinalizeTokens") }
-func FuzzIssuer3(f *testing.F) { fuzzTarget(f, "type3.RateLimitedIssuer.Evaluate") }
+func FuzzToken1(f *testing.F)         { fuzzTarget(f, "type1.UnmarshalPrivateToken+Verify") }
+func FuzzToken2(f *testing.F)         { fuzzTarget(f, "type2.UnmarshalToken") }
+func FuzzToken3(f *testing.F)         { fuzzTarget(f, "type3.UnmarshalToken") }
+func FuzzToken5(f *testing.F)         { fuzzTarget(f, "type5.UnmarshalBatchedPrivateToken+Verify") }
+func FuzzRequest1(f *testing.F)       { fuzzTarget(f, "type1.TokenRequest.Unmarshal+Evaluate") }
+func FuzzRequest2(f *testing.F)       { fuzzTarget(f, "type2.TokenRequest.Unmarshal+Evaluate") }
+func FuzzRequest5(f *testing.F)       { fuzzTarget(f, "type5.TokenRequest.Unmarshal+Evaluate") }
+func FuzzRequest3(f *testing.F)       { fuzzTarget(f, "type3.TokenRequest.Unmarshal") }
+func FuzzInner(f *testing.F)          { fuzzTarget(f, "type3.InnerTokenRequest.Unmarshal") }
+func FuzzEncapKey(f *testing.F)       { fuzzTarget(f, "type3.UnmarshalEncapKey") }
+func FuzzBatchRequest(f *testing.F)   { fuzzTarget(f, "batched.TokenRequest.Unmarshal+EvaluateBatch") }
+func FuzzBatchResponse(f *testing.F) {
+	fuzzTarget(f, "batched.UnmarshalBatchedTokenResponses+Finalize")
+}
+func FuzzTokenKey(f *testing.F)      { fuzzTarget(f, "util.UnmarshalTokenKey") }
+func FuzzFinalize1(f *testing.F)     { fuzzTarget(f, "type1.FinalizeToken") }
+func FuzzFinalize2(f *testing.F)     { fuzzTarget(f, "type2.FinalizeToken") }
+func FuzzFinalize3(f *testing.F)     { fuzzTarget(f, "type3.FinalizeToken") }
+func FuzzFinalize5(f *testing.F)     { fuzzTarget(f, "type5.FinalizeTokens") }
+func FuzzIssuer3(f *testing.F)       { fuzzTarget(f, "type3.RateLimitedIssuer.Evaluate") }
 func FuzzVerifyRequest(f *testing.F) { fuzzTarget(f, "type3.Attester.VerifyRequest") }
 func FuzzFinalizeIndex(f *testing.F) { fuzzTarget(f, "type3.Attester.FinalizeIndex") }
-func FuzzVerifyASN1(f *testing.F) { fuzzTarget(f, "ecdsa.VerifyASN1") }
-func FuzzEcdsaVerify(f *testing.F) { fuzzTarget(f, "ecdsa.Verify") }
+func FuzzVerifyASN1(f *testing.F)    { fuzzTarget(f, "ecdsa.VerifyASN1") }
+func FuzzEcdsaVerify(f *testing.F)   { fuzzTarget(f, "ecdsa.Verify") }
 func FuzzEd25519Verify(f *testing.F) { fuzzTarget(f, "ed25519.Verify") }
-func FuzzQuicwire(f *testing.F) { fuzzTarget(f, "quicwire.Consume*") }
+func FuzzQuicwire(f *testing.F)      { fuzzTarget(f, "quicwire.Consume*") }
